@@ -88,7 +88,14 @@ def run_case(K: float, framing: str, offsets: list[tuple[float, str]], horizon_k
         assert T0 is not None
         conn = dev.conn
         for off, kind in offsets:
-            if kind == "SensorStateResponse":
+            if kind.startswith("PARTIAL"):
+                # the beginning of a frame and nothing more (the peer died in the middle of a write): bytes, but no message
+                from aioesphomeapi import api_pb2 as _pb  # noqa: PLC0415
+
+                whole = conn.encode("SensorStateResponse", _pb.SensorStateResponse(key=1, state=2.0).SerializeToString()) if framing == "plain" else \
+                    refcodec.enc_noise_outer(bytes(range(40)))
+                conn.send_raw(whole[:int(kind.split(":")[1])], off)
+            elif kind == "SensorStateResponse":
                 conn.send(kind, _delay=off, key=1, state=2.0)
             elif kind == "SubscribeLogsResponse":
                 conn.send(kind, _delay=off, message=b"x")
@@ -129,7 +136,7 @@ def run_case(K: float, framing: str, offsets: list[tuple[float, str]], horizon_k
             "T0": T0, "H": H, "pings": pings, "close_t": v.closed_t, "closed": v.closed_seq is not None,
             "fatal": None if first_fatal is None else (first_fatal[1], type(first_fatal[2]).__name__),
             "on_stop": [(x[1], x[2]) for x in v.on_stop],
-            "device_sent_times": sorted(t for t in ([T0 + o for o, _ in offsets] + (pongs_from_device if live_until is not None else []))),
+            "device_sent_times": sorted(t for t in ([T0 + o for o, kd in offsets if not kd.startswith("PARTIAL")] + (pongs_from_device if live_until is not None else []))),
             "harness_errors": list(sim.harness_errors), "decode_errors": conn.decode_errors,
             "trace": sim.trace(80),
         }
@@ -251,6 +258,11 @@ def shard(ctx: Ctx) -> None:
                 pats.append((f"messages-every-{gap}K-until-horizon", offs, 22, None))
             for live in (0.3, 2.0, 3.7, 6.25):
                 pats.append((f"live-then-silent-at-{live}K", [], live + 9, live * K))
+            # the peer dies in the middle of a frame: a fragment (1 byte / header only / header + part of the payload) is buffered, then silence.
+            # Fragments arrive before the first ping, so that "the first ping followed by 4.5K of total silence" is unambiguous
+            for nb in (1, 3, 5):
+                pats.append((f"fragment-of-{nb}-bytes-then-silence", [(0.25 * K, f"PARTIAL:{nb}")], 9, None))
+                pats.append((f"messages-then-fragment-of-{nb}-bytes-then-silence", [(0.25 * K, "SensorStateResponse"), (1.25 * K, "SubscribeLogsResponse"), (1.75 * K, f"PARTIAL:{nb}")], 11, None))
             pats.append(("exact-coincidence-recorded-only", [(1.0 * K, "PingResponse"), (2.0 * K, "SensorStateResponse")], 10, None))
             for label, offs, hk, live in pats:
                 idx += 1
